@@ -1,4 +1,5 @@
 from .cmd_base import DoitCmdBase, check_tasks_exist, subtasks_iter
+from .cmd_base import merge_calc_dep
 
 opt_listall = {
     'name': 'subtasks',
@@ -90,6 +91,7 @@ class List(DoitCmdBase):
             if self.dep_manager.status_is_ignore(task):
                 task_status = 'ignore'
             else:
+                merge_calc_dep(self.dep_manager, tasks, task)
                 task_status = self.dep_manager.get_status(task, tasks).status
             line_data['status'] = self.STATUS_MAP[task_status]
 
